@@ -1,6 +1,7 @@
 (** C13, part 6c: [loadable] over the step table: composition of the per-step lemmas proved so far. *)
 From Coq Require Import List ZArith String Ascii Bool Lia Arith.
-From AGH Require Import Model.Migrate Model.MigrateLoad Proofs.Migrate Proofs.MigrateFrame Proofs.MigrateLoadable Proofs.MigrateLoadableA Proofs.MigrateLoadableB Proofs.MigrateElems.
+From AGH Require Import Model.Migrate Model.MigrateLoad Proofs.Migrate Proofs.MigrateFrame Proofs.MigrateLoadable Proofs.MigrateLoadableA Proofs.MigrateLoadableB
+  Proofs.MigrateLoadableD Proofs.MigrateLoadableE Proofs.MigrateLoadableF Proofs.MigrateLoadableG Proofs.MigrateElems.
 Import ListNotations.
 Local Open Scope string_scope.
 Local Open Scope list_scope.
@@ -26,12 +27,101 @@ Proof.
   apply (upgrade_kept O L 0 cur tgt m m' K); [lia | lia | exact H | exact Hm].
 Qed.
 
+(** All 29 per-step lemmas (the 17 the partial statement assumes are
+    [keep3] ... [keep29] of Proofs/MigrateLoadableD.v to G.v): the hypothesis
+    of [loadable_preserved_partial] holds. *)
+Lemma all_steps_kept O : kept_from L 0 (skipn 0 (map snd (steps O))).
+Proof.
+  exact (conj keep1 (conj keep2 (conj keep3 (conj keep4 (conj (keep5 O) (conj keep6 (conj keep7 (conj keep8
+        (conj keep9 (conj (keep10 O) (conj keep11 (conj keep12 (conj keep13 (conj keep14 (conj keep15
+        (conj keep16 (conj keep17 (conj keep18 (conj keep19 (conj keep20 (conj keep21 (conj keep22
+        (conj (keep23 O) (conj keep24 (conj keep25 (conj keep26 (conj keep27 (conj keep28
+        (conj (keep29 O) I))))))))))))))))))))))))))))).
+Qed.
+
+Lemma kept_nth Inv l : forall a n s, kept_from Inv a l -> nth_error l n = Some s -> step_keeps Inv (a + n) s.
+Proof.
+  induction l as [|s0 l IH]; intros a n s K Hn; [destruct n; discriminate Hn|].
+  destruct K as [K0 K]. destruct n as [|n]; cbn [nth_error] in Hn.
+  - injection Hn as <-. now rewrite Nat.add_0_r.
+  - replace (a + S n)%nat with (S a + n)%nat by lia. exact (IH _ _ _ K Hn).
+Qed.
+
+Lemma unproved_steps_kept O : unproved_steps_keep O.
+Proof. intros n s Hn _. exact (kept_nth L _ 0 n s (all_steps_kept O) Hn). Qed.
+
+(** The full statement: a successful upgrade of a document loadable at its
+    version is loadable at the target version. *)
+Theorem loadable_preserved : forall O cur tgt m m', (cur <= tgt <= 29)%nat ->
+  upgrade O cur tgt m = Ok m' -> loadable cur m = true -> loadable tgt m' = true.
+Proof.
+  intros O cur tgt m m' R H Hm.
+  apply (upgrade_kept O L 0 cur tgt m m' (all_steps_kept O)); [lia | lia | exact H | exact Hm].
+Qed.
+
+Lemma loadable_preserved_is_statement : loadable_preserved_statement.
+Proof. exact loadable_preserved. Qed.
+
 (** Non-vacuity: a version-3 document with three clients is loadable, and so
     is its upgrade to 29. *)
 Example loadable_doc3 :
   loadable 3 doc3_clients = true /\
   exists a, migrate oracles0 (Some doc3_clients) 29 = ONew a /\ loadable 29 a = true /\ loadable 29 (norm_obj a) = true.
 Proof. split; [reflexivity|]. eexists. split; [vm_compute; reflexivity|]. split; vm_compute; reflexivity. Qed.
+
+(** The same on documents that exercise [moves]: a version-14 document
+    whose [dns] section holds the query-log, statistics and filtering
+    settings (steps 15, 16, 26), with top-level logging keys (step 24) and a
+    listening address (step 23); and a version-23 document with the
+    logging keys only. *)
+Definition doc14_moves : obj :=
+  [("schema_version", VInt 14); ("bind_host", VStr "127.0.0.1"); ("bind_port", VInt 3000);
+   ("web_session_ttl", VInt 720);
+   ("log_file", VStr "/var/log/agh.log"); ("log_max_backups", VInt 3); ("log_max_size", VInt 100);
+   ("log_max_age", VInt 7); ("log_compress", VBool true); ("log_localtime", VBool false); ("verbose", VBool true);
+   ("debug_pprof", VBool true);
+   ("dns", VObj [("querylog_enabled", VBool false); ("querylog_file_enabled", VBool true);
+                 ("querylog_interval", VStr "24h"); ("querylog_size_memory", VInt 500);
+                 ("statistics_interval", VInt 7); ("edns_client_subnet", VBool true);
+                 ("safesearch_enabled", VBool true); ("blocked_services", VArr [VStr "youtube"]);
+                 ("all_servers", VBool false); ("fastest_addr", VBool true);
+                 ("filtering_enabled", VBool true); ("filters_update_interval", VInt 24);
+                 ("rewrites", VArr [VObj [("domain", VStr "a.example"); ("answer", VStr "1.2.3.4")]]);
+                 ("blocking_mode", VStr "default"); ("blocked_response_ttl", VInt 10);
+                 ("protection_disabled_until", VNull); ("upstream_dns", VArr [VStr "9.9.9.9"])]);
+   ("clients", VObj [("persistent", VArr [VObj [("ids", VArr [VStr "10.0.0.1"]); ("safesearch_enabled", VBool true);
+                                                ("use_global_blocked_services", VBool false);
+                                                ("blocked_services", VArr [VStr "tiktok"])]]);
+                     ("runtime_sources", VObj runtime0)]);
+   ("dhcp", VObj [("dhcpv4", VObj [("gateway_ip", VStr "10.0.0.254"); ("lease_duration", VInt 86400)]);
+                  ("local_domain_name", VStr "lan")]);
+   ("filters", VArr [VObj [("url", VStr "/etc/list.txt")]; VObj [("url", VStr "https://a.example/l.txt")]])].
+
+Definition doc23_log : obj :=
+  [("schema_version", VInt 23); ("log_file", VStr "syslog"); ("log_max_age", VInt 3); ("log_compress", VBool false);
+   ("verbose", VBool false); ("http", VObj [("address", VStr "127.0.0.1:3000"); ("session_ttl", VStr "720h")]);
+   ("dns", VObj [("parental_enabled", VBool true); ("safebrowsing_cache_size", VInt 1048576)])].
+
+Example loadable_doc14_moves :
+  loadable 14 doc14_moves = true /\
+  exists a, migrate oracles0 (Some doc14_moves) 29 = ONew a /\ loadable 29 a = true /\ loadable 29 (norm_obj a) = true /\
+    (exists q, get "querylog" a = Some (VObj q) /\ get "size_memory" q = Some (VInt 500)) /\
+    (exists l, get "log" a = Some (VObj l) /\ get "max_backups" l = Some (VInt 3)) /\
+    (exists f, get "filtering" a = Some (VObj f) /\ get "blocked_response_ttl" f = Some (VInt 10)).
+Proof.
+  split; [vm_compute; reflexivity|]. eexists. split; [vm_compute; reflexivity|].
+  split; [vm_compute; reflexivity|]. split; [vm_compute; reflexivity|].
+  split; [|split]; eexists; (split; [vm_compute; reflexivity | vm_compute; reflexivity]).
+Qed.
+
+Example loadable_doc23_log :
+  loadable 23 doc23_log = true /\
+  exists a, migrate oracles0 (Some doc23_log) 29 = ONew a /\ loadable 29 a = true /\
+    (exists l, get "log" a = Some (VObj l) /\ get "file" l = Some (VStr "syslog")).
+Proof.
+  split; [vm_compute; reflexivity|]. eexists. split; [vm_compute; reflexivity|].
+  split; [vm_compute; reflexivity|]. eexists. split; vm_compute; reflexivity.
+Qed.
 
 (** A null pointer-typed section is not loadable (the start-up code
     dereferences the nil pointer it leaves). *)
